@@ -598,9 +598,17 @@ class fcfs:
     params = {"self": "BpSeq"}
     requires = ["valid(self.entries)", "levels30(self)"]
     returns = "DotBracket"
+    # ghost results: the regions R (the stems), the levels O actually painted (the first-come-first-served levels) and the
+    # inverse strand map G - so that callers (all_dot_brackets, C16) can identify this notation among others
+    ghost_returns = {"R": "list[tuple[int,int,int]]", "O": "list[int]", "G": "list[int]"}
     ensures = ["len(result.structure) == len(self.entries)", "seq_of(self.entries, result.sequence)",
-               "lossless(self.entries, result.pairs)", "fresh(result)"]
-    ensures_labels = {0: "length", 1: "sequence", 2: "lossless", 3: "fresh"}
+               "lossless(self.entries, result.pairs)", "fresh(result)",
+               "regions_match(self.entries, R) and len(O) == len(R) and proper(R, O)",
+               "forall(lambda a: implies(0 <= a and a < len(R), O[a] == FC(a)))",
+               "region_map(G, R, len(self.entries), len(R)) and painted_g(result.structure, R, O, G)"]
+    ensures_labels = {0: "length", 1: "sequence", 2: "lossless", 3: "fresh", 4: "levels-are-proper-on-the-stems",
+                      5: "levels-are-the-first-come-first-served-levels", 6: "painted-with-those-levels"}
+    ghost_exit = ["let O = orders", "let G = __make_dot_bracket_G"]
     raises = []
     modifies = []
     locals = {}
